@@ -37,7 +37,7 @@ META = {
     "assumptions": ["reference states transcribe the docstrings"],
 }
 
-TOL = 1e-7   # angle synthesis (arccos/arctan of amplitudes) limits the prepared state to ~sqrt(eps) = 1.5e-8 for block-zero inputs
+TOL = 5e-7   # (1.1e-7 observed on the unchanged tree for block-zero inputs in the thorough tier; a wrong angle formula gives >= 1e-3)  # angle synthesis (arccos/arctan of amplitudes) limits the prepared state to ~sqrt(eps) = 1.5e-8 for block-zero inputs
 
 
 # ------------------------------------------------------------------------------------------ generators
